@@ -16,6 +16,7 @@ import (
 	"time"
 
 	"github.com/0chain/common/core/logging"
+	"github.com/herumi/bls-go-binary/bls"
 	"go.uber.org/zap"
 )
 
@@ -261,4 +262,38 @@ func lin(c, x []uint64) *big.Int {
 		s.Add(s, t)
 	}
 	return s
+}
+
+// BLSAddMul returns the signature sig + c*d (group operation of BLS signatures, c may be
+// negative), as a hex string accepted by the signature schemes. Natively it uses the real
+// herumi group operations; under the executor (exponent view, enabled with
+// Note("mode:bls-exponent-view")) signatures are linear forms over formal generators and c
+// may be symbolic.
+func BLSAddMul(sig, d string, c int64) string {
+	var s, dd bls.G1
+	var sg, dg bls.Sign
+	if err := sg.DeserializeHexStr(sig); err != nil {
+		panic(err)
+	}
+	if err := dg.DeserializeHexStr(d); err != nil {
+		panic(err)
+	}
+	if err := s.Deserialize(sg.Serialize()); err != nil {
+		panic(err)
+	}
+	if err := dd.Deserialize(dg.Serialize()); err != nil {
+		panic(err)
+	}
+	if c < 0 {
+		bls.G1Neg(&dd, &dd)
+		c = -c
+	}
+	for k := int64(0); k < c; k++ {
+		bls.G1Add(&s, &s, &dd)
+	}
+	var out bls.Sign
+	if err := out.Deserialize(s.Serialize()); err != nil {
+		panic(err)
+	}
+	return out.SerializeToHexStr()
 }
